@@ -395,3 +395,148 @@ Section GridCentre.
   Lemma ccoord_emb (ax : axis) (c u v : T) : ccoord ax (emb ax c u v) = c.
   Proof. destruct ax; reflexivity. Qed.
 End GridCentre.
+
+(** ** 5. the centres of the cells of one wall *)
+Section WallCentres.
+  Context {T : Type} {O : Ops T} {RL : RingLaws T} {OL : OrderLaws T} {FL : FieldLaws T}
+          {FlL : FloorLaws T} {SL : SqrtLaws T}.
+  Add Ring TRingShoebox4 : (@ring_th T O RL).
+  Local Notation vec := (@vec T).
+  Local Open Scope T_scope.
+
+  Variables (q : @quad T) (p : T) (f : nat) (c : T) (up : bool).
+  Hypothesis Hok : wall_ok q p f c.
+
+  Lemma wall_axis_size (a : nat) : a = px f \/ a = py f -> p <= size q a.
+  Proof. destruct Hok as (_ & _ & _ & Hx & Hy). intros [-> | ->]; assumption. Qed.
+
+  Lemma wall_p_pos : 0 < p.
+  Proof. destruct Hok as (_ & _ & Hp & _). exact Hp. Qed.
+
+  Lemma wall_real_size_pos (a : nat) : a = px f \/ a = py f -> 0 < real_size q p a.
+  Proof. intros Ha. apply real_size_pos; [exact wall_p_pos|now apply wall_axis_size]. Qed.
+
+  Lemma wall_patch_num_pos (a : nat) : a = px f \/ a = py f -> (1 <= patch_num q p a)%nat.
+  Proof.
+    destruct (stmt_count q p f c Hok) as (_ & _ & Nx & Ny & _). intros [-> | ->]; assumption.
+  Qed.
+
+  (** every cell side is at least the requested patch size *)
+  Lemma real_size_ge_p (a : nat) : a = px f \/ a = py f -> p <= real_size q p a.
+  Proof.
+    intros Ha. destruct (stmt_floor q p f c a Hok Ha) as [Hlo _].
+    assert (Hn : 0 < tofnat (patch_num q p a)) by (apply tofnat_pos; pose proof (wall_patch_num_pos a Ha); lia).
+    apply (tmul_le_cancel_pos_r _ _ _ Hn). unfold real_size.
+    rewrite tdiv_mul by now apply tpos_neq.
+    replace (p * tofnat (patch_num q p a)) with (tofnat (patch_num q p a) * p) by ring. exact Hlo.
+  Qed.
+
+  Lemma wall_gline_last (a : nat) : a = px f \/ a = py f ->
+    gline (col_min q a) (real_size q p a) (patch_num q p a) = col_max q a.
+  Proof. intros Ha. apply gline_last; [exact wall_p_pos|now apply wall_axis_size]. Qed.
+
+  Lemma wall_gline_first (a : nat) : gline (col_min q a) (real_size q p a) 0 = col_min q a.
+  Proof. apply gline_0. Qed.
+
+  Definition cell_centre (i j : nat) : vec := centroid (rect_pts (cell_rect q p f up c i j)).
+
+  Lemma cell_centre_emb (i j : nat) :
+    cell_centre i j = emb (ax_of f) c (rect_mid_u (cell_rect q p f up c i j)) (rect_mid_v (cell_rect q p f up c i j)).
+  Proof. unfold cell_centre. now rewrite rect_centroid. Qed.
+
+  Lemma cell_centre_c (i j : nat) : ccoord (ax_of f) (cell_centre i j) = c.
+  Proof. rewrite cell_centre_emb. apply ccoord_emb. Qed.
+
+  Lemma cell_centre_u (i j : nat) :
+    ucoord (ax_of f) (cell_centre i j) + ucoord (ax_of f) (cell_centre i j)
+    = gline (col_min q (px f)) (real_size q p (px f)) i + gline (col_min q (px f)) (real_size q p (px f)) (S i).
+  Proof. rewrite cell_centre_emb, ucoord_emb. now rewrite rect_mid_u_double. Qed.
+
+  Lemma cell_centre_v (i j : nat) :
+    vcoord (ax_of f) (cell_centre i j) + vcoord (ax_of f) (cell_centre i j)
+    = gline (col_min q (py f)) (real_size q p (py f)) j + gline (col_min q (py f)) (real_size q p (py f)) (S j).
+  Proof. rewrite cell_centre_emb, vcoord_emb. now rewrite rect_mid_v_double. Qed.
+
+  (** in the plane of every rectangle of the wall's plane *)
+  Lemma cell_centre_on (i j : nat) (r : rect) :
+    r_axis r = ax_of f -> r_c r = c -> on_plane (rect_surface r) (cell_centre i j).
+  Proof.
+    intros Hax Hc. unfold on_plane. rewrite side_of_rect, Hax, Hc, cell_centre_c. ring.
+  Qed.
+
+  (** farther than m from every grid line of the wall, in both directions *)
+  Lemma cell_centre_off_u (m : T) (i j k : nat) :
+    m + m < p ->
+    m < tabs (ucoord (ax_of f) (cell_centre i j) - gline (col_min q (px f)) (real_size q p (px f)) k).
+  Proof.
+    intros Hm. apply (mid_grid_off m _ _ _ i k).
+    - apply tlt_le, wall_real_size_pos. now left.
+    - apply cell_centre_u.
+    - apply (tlt_le_trans _ p); [exact Hm|]. apply real_size_ge_p. now left.
+  Qed.
+
+  Lemma cell_centre_off_v (m : T) (i j k : nat) :
+    m + m < p ->
+    m < tabs (vcoord (ax_of f) (cell_centre i j) - gline (col_min q (py f)) (real_size q p (py f)) k).
+  Proof.
+    intros Hm. apply (mid_grid_off m _ _ _ j k).
+    - apply tlt_le, wall_real_size_pos. now right.
+    - apply cell_centre_v.
+    - apply (tlt_le_trans _ p); [exact Hm|]. apply real_size_ge_p. now right.
+  Qed.
+
+  Lemma cell_centre_off_cell (m : T) (i j i' j' : nat) :
+    m + m < p -> off_bands m (cell_rect q p f up c i' j') (cell_centre i j).
+  Proof.
+    intros Hm. unfold off_bands. cbn [cell_rect r_axis r_ua r_ub r_va r_vb].
+    split; [exact (cell_centre_off_u m i j _ Hm)|].
+    split; [exact (cell_centre_off_u m i j _ Hm)|].
+    split; [exact (cell_centre_off_v m i j _ Hm)|exact (cell_centre_off_v m i j _ Hm)].
+  Qed.
+
+  Lemma cell_centre_pt_on (m : T) (i j i' j' : nat) (up' : bool) :
+    m + m < p -> pt_on m (cell_rect q p f up' c i' j') (cell_centre i j).
+  Proof.
+    intros Hm. split.
+    - now apply cell_centre_on.
+    - unfold off_bands. cbn [cell_rect r_axis r_ua r_ub r_va r_vb].
+      split; [exact (cell_centre_off_u m i j _ Hm)|].
+    split; [exact (cell_centre_off_u m i j _ Hm)|].
+    split; [exact (cell_centre_off_v m i j _ Hm)|exact (cell_centre_off_v m i j _ Hm)].
+  Qed.
+
+  (** at least half a patch inside the wall's extent *)
+  Lemma cell_centre_u_lo (i j : nat) :
+    p <= (ucoord (ax_of f) (cell_centre i j) - col_min q (px f)) + (ucoord (ax_of f) (cell_centre i j) - col_min q (px f)).
+  Proof.
+    apply (tle_trans _ (real_size q p (px f))); [apply real_size_ge_p; now left|].
+    pose proof (mid_grid_below _ _ _ i 0 (tlt_le _ _ (wall_real_size_pos (px f) (or_introl eq_refl)))
+                  (cell_centre_u i j) (Nat.le_0_l i)) as H.
+    rewrite (wall_gline_first (px f)) in H. exact H.
+  Qed.
+
+  Lemma cell_centre_u_hi (i j : nat) : (i < patch_num q p (px f))%nat ->
+    p <= (col_max q (px f) - ucoord (ax_of f) (cell_centre i j)) + (col_max q (px f) - ucoord (ax_of f) (cell_centre i j)).
+  Proof.
+    intros Hi. apply (tle_trans _ (real_size q p (px f))); [apply real_size_ge_p; now left|].
+    rewrite <- (wall_gline_last (px f)) by now left.
+    apply (mid_grid_above _ _ _ i); [apply tlt_le, wall_real_size_pos; now left|apply cell_centre_u|exact Hi].
+  Qed.
+
+  Lemma cell_centre_v_lo (i j : nat) :
+    p <= (vcoord (ax_of f) (cell_centre i j) - col_min q (py f)) + (vcoord (ax_of f) (cell_centre i j) - col_min q (py f)).
+  Proof.
+    apply (tle_trans _ (real_size q p (py f))); [apply real_size_ge_p; now right|].
+    pose proof (mid_grid_below _ _ _ j 0 (tlt_le _ _ (wall_real_size_pos (py f) (or_intror eq_refl)))
+                  (cell_centre_v i j) (Nat.le_0_l j)) as H.
+    rewrite (wall_gline_first (py f)) in H. exact H.
+  Qed.
+
+  Lemma cell_centre_v_hi (i j : nat) : (j < patch_num q p (py f))%nat ->
+    p <= (col_max q (py f) - vcoord (ax_of f) (cell_centre i j)) + (col_max q (py f) - vcoord (ax_of f) (cell_centre i j)).
+  Proof.
+    intros Hj. apply (tle_trans _ (real_size q p (py f))); [apply real_size_ge_p; now right|].
+    rewrite <- (wall_gline_last (py f)) by now right.
+    apply (mid_grid_above _ _ _ j); [apply tlt_le, wall_real_size_pos; now right|apply cell_centre_v|exact Hj].
+  Qed.
+End WallCentres.
